@@ -217,9 +217,12 @@ func (s *TranslateFile) handlePrimaryStoreEvent(ev primaryStoreEvent) error {
 		return nil
 	}
 
-	// Stop translate store replication.
+	// Stop translate store replication. The channel is replaced right away:
+	// when there is no new primary nothing else would replace it, and the
+	// next change of the primary would close the closed channel again.
 	close(s.replicationClosing)
 	s.repWG.Wait()
+	s.replicationClosing = make(chan struct{})
 
 	// Set the primary node for translate store replication.
 	s.logger.Debugf("set primary translate store to %s", ev.id)
@@ -232,7 +235,6 @@ func (s *TranslateFile) handlePrimaryStoreEvent(ev primaryStoreEvent) error {
 
 	// Start translate store replication. Stream from primary, if available.
 	if s.PrimaryTranslateStore != nil {
-		s.replicationClosing = make(chan struct{})
 		s.repWG.Add(1)
 		go func() { defer s.repWG.Done(); s.monitorReplication() }()
 	}
